@@ -316,6 +316,17 @@ pub struct Case {
     /// as make the slice as long as the viewing type's own size
     #[serde(default)]
     pub slack: u8,
+    /// payload bytes: 0 markers, 1 all zero, 2 all 0xFF
+    #[serde(default)]
+    pub fill: u8,
+}
+
+fn fill_body(fill: u8, key: u64, n: usize) -> Vec<u8> {
+    match fill % 3 {
+        0 => (0..n).map(|i| marker(key, 8 + i)).collect(),
+        1 => vec![0u8; n],
+        _ => vec![0xFFu8; n],
+    }
 }
 
 pub fn eval(c: &Case, obs: &mut Obs) -> Result<(), String> {
@@ -324,7 +335,7 @@ pub fn eval(c: &Case, obs: &mut Obs) -> Result<(), String> {
     if !(8..=4096).contains(&size) {
         return Err("malformed case: size out of the generated range".into());
     }
-    let body: Vec<u8> = (0..size - 8).map(|i| marker(c.key, 8 + i)).collect();
+    let body: Vec<u8> = fill_body(c.fill, c.key, size - 8);
     let region = mb2_model::encode::mbi(&[mb2_model::encode::tag(id, &body)], 0, 0x5A, true);
     let a = Aligned::new(&region);
     let mut loose = mb2_model::encode::tag(id, &body);
@@ -375,11 +386,11 @@ pub fn eval(c: &Case, obs: &mut Obs) -> Result<(), String> {
 
 fn enumerate(ctx: &Ctx) -> Box<dyn Iterator<Item = Case>> {
     let top = if ctx.tier == Tier::Thorough { 160 } else { 96 };
-    Box::new((0..FAMILY.len()).flat_map(move |fam| (8..=top).flat_map(move |size| [0u8, 1, 5].into_iter().map(move |slack| Case { fam, size, key: (fam * 1000 + size as usize) as u64, slack }))))
+    Box::new((0..FAMILY.len()).flat_map(move |fam| (8..=top).flat_map(move |size| [0u8, 1, 5].into_iter().flat_map(move |slack| [0u8, 1].into_iter().map(move |fill| Case { fam, size, key: (fam * 1000 + size as usize) as u64, slack, fill })))))
 }
 
 fn strategy(_: &Ctx) -> BoxedStrategy<Case> {
-    (0..FAMILY.len(), 8u32..=1024, any::<u64>(), 0u8..6).prop_map(|(fam, size, key, slack)| Case { fam, size, key, slack }).boxed()
+    (0..FAMILY.len(), 8u32..=1024, any::<u64>(), 0u8..6, 0u8..3).prop_map(|(fam, size, key, slack, fill)| Case { fam, size, key, slack, fill }).boxed()
 }
 
 // --- built-in kinds ---------------------------------------------------------
@@ -389,6 +400,9 @@ pub struct BuiltinCase {
     pub kind: u32,
     pub size: u32,
     pub key: u64,
+    /// payload bytes: 0 markers, 1 all zero, 2 all 0xFF
+    #[serde(default)]
+    pub fill: u8,
 }
 
 pub fn eval_builtin(c: &BuiltinCase, obs: &mut Obs) -> Result<(), String> {
@@ -396,7 +410,7 @@ pub fn eval_builtin(c: &BuiltinCase, obs: &mut Obs) -> Result<(), String> {
     if !(8..=4096).contains(&size) || c.kind > 21 {
         return Err("malformed case".into());
     }
-    let mut body: Vec<u8> = (0..size - 8).map(|i| marker(c.key, 8 + i)).collect();
+    let mut body: Vec<u8> = fill_body(c.fill, c.key, size - 8);
     // keep the VBE memory model defined (open finding D16 is about that byte)
     if c.kind == 7 && body.len() > 547 {
         body[547] %= 8;
@@ -436,6 +450,28 @@ pub fn eval_builtin(c: &BuiltinCase, obs: &mut Obs) -> Result<(), String> {
             return Err(format!("built-in kind {} (fixed part {fixed} bytes) yields a typed view of a {size}-byte tag: its fixed fields cannot alias the tag", c.kind));
         }
     }
+    // the same tag as the only tag of a boot information: whatever a typed getter of
+    // the loaded structure returns is that whole tag (or nothing / an error)
+    let region = mb2_model::encode::mbi(&[mb2_model::encode::tag(c.kind, &body)], 0, 0x5A, true);
+    match sbx::mbi(&region, sbx::Place::End, MbiOpts { debug: false, max_steps: 600, typed_all: false }) {
+        Boxed::Done(g) => {
+            for (k, v) in &g.lines {
+                if !k.starts_with("g.") || k == "g.end" || k.matches('.').count() != 1 {
+                    continue;
+                }
+                if let Val::Ext(o, l) = v {
+                    if (*o, *l) != (8, r8(size)) {
+                        return Err(format!("built-in kind {} at tag size {size} as the only tag of a boot information: getter `{k}` returns a view ({o},{l}), the tag is (8,{})", c.kind, r8(size)));
+                    }
+                }
+            }
+        }
+        Boxed::Crash(s) => return Err(format!("built-in kind {} at tag size {size} inside a boot information: crashed: {s}", c.kind)),
+        Boxed::Inconclusive(w) => {
+            obs.inconclusive(w);
+            return Ok(());
+        }
+    }
     match t.get("t0.cast") {
         Some(Val::Panic) if !ok => Ok(()),
         Some(Val::Ext(0, l)) if *l == r8(size) => {
@@ -456,20 +492,20 @@ fn enumerate_builtin(ctx: &Ctx) -> Box<dyn Iterator<Item = BuiltinCase>> {
     let top = if ctx.tier == Tier::Thorough { 160 } else { 96 };
     let it = (0..=21u32).flat_map(move |kind| {
         let sizes: Vec<u32> = if kind == 7 { (8..=top).chain(760..=808).collect() } else { (8..=top).collect() };
-        sizes.into_iter().map(move |size| BuiltinCase { kind, size, key: (kind * 1000 + size) as u64 })
+        sizes.into_iter().flat_map(move |size| [0u8, 1].into_iter().map(move |fill| BuiltinCase { kind, size, key: (kind * 1000 + size) as u64, fill }))
     });
     Box::new(it)
 }
 
 fn strategy_builtin(_: &Ctx) -> BoxedStrategy<BuiltinCase> {
-    (0u32..=21, 8u32..=1024, any::<u64>()).prop_map(|(kind, size, key)| BuiltinCase { kind, size, key }).boxed()
+    (0u32..=21, 8u32..=1024, any::<u64>(), 0u8..3).prop_map(|(kind, size, key, fill)| BuiltinCase { kind, size, key, fill }).boxed()
 }
 
 pub fn subs() -> Vec<Box<dyn Sub>> {
     vec![
         Box::new(PropSub::<Case> {
             name: "custom-family",
-            rule: "34 harness-defined tag types with truthful BASE_SIZE/dst_len (8-aligned: sized with 0..=6 extra words; DST tails with element sizes 1,2,3,4,8,24 behind fixed parts of 8..=24 bytes, alignment-compatible combinations; 4-aligned types that do not embed TagHeader: sized 12..=28 bytes, DST with u32 tail) with custom IDs, viewed through BootInformation::get_tag, DynSizedStructure::cast on the iterated tag, and ref_from_slice over the tag followed by slack bytes (0, 8, .., 32, or exactly enough to make the slice as long as the viewing type) + cast. Enumerated completely: every type x every tag size 8..=96 (thorough 160) x slack {0, 8, up-to-type-size}; generated: sizes up to 1024. Oracle: panic, or a view at the tag's address with size_of_val == r8(tag size) whose last field byte aliases the tag; an exactly fitting size must be accepted. Non-trivial = exact fit, or a sized type at a non-matching size; distinct by (type, size)",
+            rule: "34 harness-defined tag types with truthful BASE_SIZE/dst_len (8-aligned: sized with 0..=6 extra words; DST tails with element sizes 1,2,3,4,8,24 behind fixed parts of 8..=24 bytes, alignment-compatible combinations; 4-aligned types that do not embed TagHeader: sized 12..=28 bytes, DST with u32 tail) with custom IDs, viewed through BootInformation::get_tag, DynSizedStructure::cast on the iterated tag, and ref_from_slice over the tag followed by slack bytes (0, 8, .., 32, or exactly enough to make the slice as long as the viewing type) + cast. Enumerated completely: every type x every tag size 8..=96 (thorough 160) x slack {0, 8, up-to-type-size} x payload {markers, all zero}; generated: sizes up to 1024. Oracle: panic, or a view at the tag's address with size_of_val == r8(tag size) whose last field byte aliases the tag; an exactly fitting size must be accepted. Non-trivial = exact fit, or a sized type at a non-matching size; distinct by (type, size)",
             profiles: Profiles::Both,
             quick: 20000,
             thorough: 300000,
@@ -480,7 +516,7 @@ pub fn subs() -> Vec<Box<dyn Sub>> {
         }),
         Box::new(PropSub::<BuiltinCase> {
             name: "builtin-kinds",
-            rule: "all 22 built-in kinds as stand-alone marker-filled tags at a PROT_NONE page: every tag size 8..=96 (thorough 160; VBE also 760..=808), generated sizes up to 1024. Oracle: the typed view is a panic or spans exactly (0, r8(size)); sizes the model accepts must be accepted. Every case is non-trivial; distinct by (kind, size)",
+            rule: "all 22 built-in kinds as stand-alone tags (payload markers / all zero / all 0xFF) at a PROT_NONE page, and as the only tag of a boot information queried through every typed getter: every tag size 8..=96 (thorough 160; VBE also 760..=808) x {markers, zero}, generated sizes up to 1024. Oracle: the typed view is a panic or spans exactly (0, r8(size)); sizes the model accepts must be accepted; whatever any getter of the loaded boot information returns is the whole tag (8, r8(size)), nothing or an error - never a view of another extent. Every case is non-trivial; distinct by (kind, size)",
             profiles: Profiles::Both,
             quick: 5000,
             thorough: 100000,
